@@ -1,6 +1,7 @@
 from typing import Callable, Sequence, Iterator
 from dataclasses import dataclass
 from enum import Enum
+import bisect
 import math
 import torch
 import pulser
@@ -28,6 +29,10 @@ _NON_LINDBLADIAN_NOISE = {
     "dmm_sigma",
     "dmm_crosstalk",
 }
+
+# Relative tolerance with which the backends match a time step against the
+# evaluation times of an observable (see their `_is_evaluation_time`).
+_EVALUATION_TIME_TOLERANCE = 1e-10
 
 
 def _get_all_lindblad_noise_operators(
@@ -75,18 +80,37 @@ def _get_target_times(
 ) -> list[float]:
     """Compute the sorted absolute times to sample the sequence.
 
-    Combines a uniform grid with step ``dt`` and any extra observable times,
-    then converts everything to absolute times over the sequence duration.
+    Combines a uniform grid with step ``dt``, the end of the sequence and any
+    extra observable times.
+
+    The backends recognize an evaluation time of an observable up to a
+    tolerance, so two target times must never be close enough to match the
+    same evaluation time: the observable would be recorded twice. Therefore
+    a multiple of ``dt`` that is (nearly) the duration is left to the duration,
+    and an observable time that a grid time already matches is not added.
     """
     duration = float(sequence.get_duration(include_fall_time=config.with_modulation))
+    dt = float(dt)
+    tolerance = _EVALUATION_TIME_TOLERANCE * duration
     n_steps = math.floor(duration / dt)
-    evolution_times_rel: set[float] = {
-        i * float(dt) / duration for i in range(n_steps + 1)
+    # Absolute times are computed directly: scaling relative times back by the
+    # duration can overshoot it by a rounding error.
+    grid_times: set[float] = {
+        i * dt for i in range(n_steps + 1) if i * dt < duration - 2 * tolerance
     }
-    evolution_times_rel.add(1.0)
-    target_times_rel = evolution_times_rel | _unique_observable_times(config)
-    target_times: list[float] = sorted({t * duration for t in target_times_rel})
-    return target_times
+    grid_times.add(duration)
+    grid = sorted(grid_times)
+
+    def is_on_grid(t: float) -> bool:
+        """Whether a grid time matches ``t`` within the tolerance."""
+        k = bisect.bisect_left(grid, t)  # grid[k - 1] < t <= grid[k]
+        return (k < len(grid) and grid[k] - t <= tolerance) or (
+            k > 0 and t - grid[k - 1] <= tolerance
+        )
+
+    observable_times = {t * duration for t in _unique_observable_times(config)}
+    extra_times = {t for t in observable_times if not is_on_grid(t)}
+    return sorted(grid_times | extra_times)
 
 
 def _extract_omega_delta_phi(
